@@ -9,11 +9,13 @@
                that the built map really contains: always 0) / `err <Variant> <code>` / `panic`.
                `bad-op` unless there are exactly four groups, complete coordinate triples and
                `num_cells ≤ length of the vertex list` (the `vtkio` writer needs that).
+  `vtkascii` → `ok <tokens of the text of to_vtk_ascii>` (coordinate tokens as exact rationals) or `panic`
   `vtkrt`    → export the session's map, import the result: `ok 0` (the session now holds the
                re-imported map) / `err …` / `panic`
 -/
 import Honeycomb.Model.Session
 import Honeycomb.Model.Vtk
+import Honeycomb.Model.VtkText
 
 namespace HC
 open Vtk
@@ -55,6 +57,13 @@ def topVtk (s : Sess) (toks : List String) : Option (Sess × String) :=
     if s.dim ≠ 2 then some (s, "bad-op") else
     match exportPiece s.m with
     | .ok (pts, cells) => some (s, "ok " ++ pieceStr pts cells)
+    | .err e => some (s, errStr e)
+    | .retry => some (s, "retry")
+    | .panic => some (s, "panic")
+  | ["vtkascii"] =>
+    if s.dim ≠ 2 then some (s, "bad-op") else
+    match VtkText.asciiTokens s.m with
+    | .ok toks => some (s, "ok " ++ " ".intercalate toks)
     | .err e => some (s, errStr e)
     | .retry => some (s, "retry")
     | .panic => some (s, "panic")
